@@ -204,8 +204,31 @@ def t_context_pair(rng, chs):
     return out if changed else None
 
 
+def t_widen(rng, chs):
+    """push code (and its "...") far to the right on some lines: leading white space of a line means nothing"""
+    out = []
+    for ch in chs:
+        body = []
+        for l in ch["body"]:
+            if l[:1] in "-+ " and l.strip() and not l.lstrip().startswith("#") and rng.random() < 0.6 and "`" not in l:
+                l = l[:1] + " " * rng.choice([250, 256, 300, 520, 1030]) + l[1:]
+            body.append(l)
+        out.append(dict(ch, body=body))
+    return out
+
+
+# extra cases with several elisions whose pairing depends on their relative positions
+EXTRA = [
+    {"name": "x_two_minus_dots", "patches": [("p.patch", b"@@\n@@\n-foo(...)\n-bar(\"lit\", ...)\n+baz(...)\n")],
+     "inputs": {"t.go": b"package x\n\nfunc do() {\n\tbefore()\n\tfoo(1, 2)\n\tbar(\"lit\", 3, 4)\n\tafter()\n}\n"}},
+    {"name": "x_two_pairs", "patches": [("p.patch", b"@@\nvar f identifier\n@@\n-f(a, ...)\n-g(...)\n+g(...)\n+f(...)\n")],
+     "inputs": {"t.go": b"package x\n\nfunc do() {\n\tfoo(a, 1, 2)\n\tg(3, 4)\n}\n"}},
+    {"name": "x_ctx_and_pair", "patches": [("p.patch", b"@@\n@@\n if x {\n   ...\n-  foo(...)\n+  bar(...)\n }\n")],
+     "inputs": {"t.go": b"package x\n\nfunc do() {\n\tif x {\n\t\ta()\n\t\tb()\n\t\tfoo(1, 2)\n\t}\n}\n"}},
+]
+
 TRANSFORMS = [("comments", t_comments), ("blank", t_blank), ("name", t_name), ("rename", t_rename), ("regroup", t_regroup),
-              ("respace", t_respace), ("rewrap", t_rewrap), ("context-pair", t_context_pair)]
+              ("respace", t_respace), ("rewrap", t_rewrap), ("context-pair", t_context_pair), ("widen", t_widen)]
 
 
 def main():
@@ -214,7 +237,7 @@ def main():
     ok, log, info = vlib.prove("C13")
     ck.proof_obligations(ok, log, info, coq_ok, coq_log)
     thorough = ck.tier == "thorough"
-    gold = [c for c in corpus.golden() if len(c["patches"]) == 1]
+    gold = [c for c in corpus.golden() if len(c["patches"]) == 1] + EXTRA
     jobs = []   # (case, variant name, patch bytes)
     for c in gold:
         text = c["patches"][0][1]
@@ -224,7 +247,7 @@ def main():
         jobs.append((c, "original", text))
         jobs.append((c, "identity", render(chs)))
         for tn, tf in TRANSFORMS:
-            for rep in range(3 if thorough else 1):
+            for rep in range((3 if thorough else 1) * (4 if tn == "widen" else 1)):
                 v = tf(ck.rng, chs)
                 if v is None:
                     continue
